@@ -869,6 +869,30 @@ def single_short_write_cases(rng, tier):
     return out
 
 
+def length_sweep_cases(rng, tier):
+    """one small acquisition per metadata length: the first frame's description (and metadata.json) then takes EVERY length of a
+    contiguous range, and the neighbourhood of every power of two above it -- so a boundary a change introduces at any length
+    (a stack buffer, a block size, a 16-bit count) is hit exactly, not by luck"""
+    top = 1100 if tier == "thorough" else 560
+    lens = list(range(0, top))
+    p2 = 1024
+    while p2 <= (65536 if tier == "thorough" else 8192):
+        lens += [p2 - 200 + d for d in range(-3, 4)] + [p2 - 130 + d for d in range(-24, 25)] + [p2 + d for d in range(-3, 4)]
+        p2 *= 2
+    out = []
+    for i, m in enumerate(lens):
+        kind = "tiff" if i % 3 else "json"
+        body = "x" * m
+        md = ('{"k":"' + body[:m - 8] + '"}') if m >= 8 else ("{" + " " * (m - 2) + "}") if m >= 2 else ""
+        assert len(md) == m or m == 1
+        f0 = gen_frame(rng, {"mode": "seq", "next": rng.choice([0, 7, 10, 123456]), "hwoff": 0}, aligned=False, tier="quick")
+        f1 = gen_frame(rng, {"mode": "edge", "next": 0, "hwoff": 0}, aligned=False, tier="quick")
+        out.append({"kind": kind, "pre": [],
+                    "cycles": [{"sets": [{"uri": "$D/l" + (".tif" if kind == "tiff" else ".dir"), "md": hx(md.encode()), "sx": 1.0, "sy": 1.0}],
+                                "packets": [[f0], [f1]] if i % 2 else [[f0]], "stop": True}]})
+    return out
+
+
 # ----------------------------------------------------------------------------- entry point
 def run(ctx):
     ctx.coq_prove(["Properties_C15"])
@@ -916,6 +940,10 @@ def run(ctx):
     n = 6000 if thorough else 480
     cases = [("g%d" % i, c) for i, c in enumerate(grouping_cases(ctx.rng, ctx.tier))]
     cases += [("s%d" % i, c) for i, c in enumerate(single_short_write_cases(ctx.rng, ctx.tier))]
+    sweep = length_sweep_cases(ctx.rng, ctx.tier)
+    ctx.extra["description_length_sweep"] = "%d cases: every metadata length 0..%d, and around the powers of two up to %d" % (
+        len(sweep), (1100 if thorough else 560) - 1, 65536 if thorough else 8192)
+    cases += [("l%d" % i, c) for i, c in enumerate(sweep)]
     cases += [(i, gen_case(ctx.rng, ctx.tier)) for i in range(n)]
     for _, c in cases[len(cases) - n:len(cases) - n + 3]:
         ctx.sample(describe(c))
